@@ -366,7 +366,7 @@ Section SkelFacts.
     run a n fixed budget tol s = Ok s' -> In m (eff_fixed a n fixed) ->
     nth m (facs s') d = nth m (facs s) d.
   Proof.
-    intros Hls. unfold WarmStart.run. destruct (shortcut a && list_eqb fixed (seq 0 n)); [intros [= <-]; reflexivity|].
+    intros Hls. unfold WarmStart.run. destruct (shortcut a && names_every_mode fixed n); [intros [= <-]; reflexivity|].
     destruct (empty_returns a && (length (modes_list a n fixed) =? 0)); [intros [= <-]; reflexivity|].
     destruct (needs_mode a tol && (0 <? budget) && (length (modes_list a n fixed) =? 0)); [discriminate|].
     intros [= <-] Hin. apply iterate_other; auto.
@@ -382,21 +382,34 @@ Section SkelFacts.
   Theorem run_shape a n fixed budget tol s s' :
     run a n fixed budget tol s = Ok s' -> length (facs s') = length (facs s).
   Proof.
-    unfold WarmStart.run. destruct (shortcut a && list_eqb fixed (seq 0 n)); [intros [= <-]; auto|].
+    unfold WarmStart.run. destruct (shortcut a && names_every_mode fixed n); [intros [= <-]; auto|].
     destruct (empty_returns a && (length (modes_list a n fixed) =? 0)); [intros [= <-]; auto|].
     destruct (needs_mode a tol && (0 <? budget) && (length (modes_list a n fixed) =? 0)); [discriminate|].
     intros [= <-]. apply iterate_length.
   Qed.
 
-  Theorem run_all_fixed_shortcut a n budget tol s : shortcut a = true -> run a n (seq 0 n) budget tol s = Ok s.
-  Proof. intros H. unfold WarmStart.run. now rewrite H, list_eqb_refl. Qed.
+  Lemma names_every_mode_spec fixed n : names_every_mode fixed n = true <-> (forall m, m < n -> In m fixed) /\ (forall m, In m fixed -> m < n).
+  Proof.
+    unfold names_every_mode. rewrite andb_true_iff, !forallb_forall. split; intros [H1 H2]; split.
+    - intros m Hm. apply memb_In, H1, in_seq. lia.
+    - intros m Hm. apply Nat.ltb_lt, H2, Hm.
+    - intros m Hm. apply in_seq in Hm. apply memb_In, H1. lia.
+    - intros m Hm. apply Nat.ltb_lt, H2, Hm.
+  Qed.
+
+  (* parafac: ANY list naming exactly the modes 0..n-1 (any order, repetitions allowed) returns the start state *)
+  Theorem run_all_fixed_shortcut a n fixed budget tol s : shortcut a = true ->
+    (forall m, m < n -> In m fixed) -> (forall m, In m fixed -> m < n) -> run a n fixed budget tol s = Ok s.
+  Proof.
+    intros H H1 H2. unfold WarmStart.run. rewrite H. now rewrite (proj2 (names_every_mode_spec fixed n) (conj H1 H2)).
+  Qed.
 
   (* without the shortcut: if no mode is left to update and the call returns, it returns the initial weights and factors *)
   Theorem run_nothing_to_update a n fixed budget tol s s' : has_hooks a = false ->
     (forall m, m < n -> In m (eff_fixed a n fixed)) -> run a n fixed budget tol s = Ok s' ->
     facs s' = facs s /\ wts s' = wts s.
   Proof.
-    intros Hh Hall. unfold WarmStart.run. destruct (shortcut a && list_eqb fixed (seq 0 n)); [intros [= <-]; auto|].
+    intros Hh Hall. unfold WarmStart.run. destruct (shortcut a && names_every_mode fixed n); [intros [= <-]; auto|].
     rewrite (modes_list_all_fixed _ _ _ Hall). destruct (empty_returns a && _); [intros [= <-]; auto|].
     destruct (needs_mode a tol && (0 <? budget) && _); [discriminate|].
     intros [= <-]. now apply iterate_nil.
@@ -407,7 +420,7 @@ End SkelFacts.
 Theorem run_zero_budget {M W X} upd stop normf normalize pre pre_on post ls_on ls_accept lsf lsw lsx a n fixed tol (s : st M W X) :
   run upd stop normf normalize pre pre_on post ls_on ls_accept lsf lsw lsx a n fixed 0 tol s = Ok s.
 Proof.
-  unfold run. destruct (shortcut a && list_eqb fixed (seq 0 n)); [reflexivity|].
+  unfold run. destruct (shortcut a && names_every_mode fixed n); [reflexivity|].
   destruct (empty_returns a && _); [reflexivity|].
   cbn [Nat.ltb Nat.leb]. rewrite andb_false_r. reflexivity.
 Qed.
